@@ -1,8 +1,8 @@
 (* Color.v — model of lesscpy/lessc/color.py: Color.fmt, _hextorgb, process, operate,
-   and of utility.is_color.  Constants come from Gen.Params (regenerated from /repo). *)
+   and of utility.is_color.  Constants come from Gen.PColor (regenerated from /repo). *)
 From Coq Require Import String.
 From Coq Require Import List Ascii Bool NArith ZArith QArith Qround.
-Require Import Model.Text Model.ParamTypes Model.Num Gen.Params.
+Require Import Model.Text Model.ParamTypes Model.Num Gen.PColor.
 Import ListNotations.
 Local Open Scope char_scope.
 
